@@ -1,6 +1,7 @@
 package checks
 
 import (
+	"strings"
 	"bytes"
 	"fmt"
 
@@ -36,10 +37,65 @@ func c17Eval(cs *core.Case) (bool, string, string) {
 	return true, "", ""
 }
 
-func c17Setup(c *core.Ctx) { c.Register("c17", c17Eval) }
+// c17HistEval: Limit = L, Ints[0] = L' > L (0 = unlimited). The file is examined
+// at L (identified), then at a short limit, then at L': the identification at L
+// must not be lost at L' because of what was examined in between.
+func c17HistEval(cs *core.Case) (bool, string, string) {
+	a := detect(cs.In, cs.Limit)
+	for _, s := range []uint32{16, 8, 4} {
+		detect(cs.In, s)
+	}
+	b := detect(cs.In, uint32(cs.Ints[0]))
+	if isBinaryID(a) && !isBinaryID(b) {
+		return false, "C17/binary-id-lost-after-short-examination/" + bare(a.String()),
+			fmt.Sprintf("file %s: at limit %d identified as %s; after it was also examined at limits 16, 8 and 4, the larger limit %d gives %s", core.Quote(cs.In), cs.Limit, chainStr(a), cs.Ints[0], chainStr(b))
+	}
+	return true, "", ""
+}
+
+var c17ctx *core.Ctx
+
+// c17FreshEval: Ints[0] = witness index. A fresh process (whose first detections
+// these are) says what the witness is at limits 3072 and 0. Here the same file
+// is first examined at the short limits 4, 8, 16, 32 and then at 3072 and 0: an
+// identification the fresh process makes must not be lost. (State that sticks
+// to the process cannot be shown by comparing two calls of one process.)
+func c17FreshEval(cs *core.Case) (bool, string, string) {
+	W := corpus(c17ctx)
+	j := cs.Ints[0]
+	want := c04FreshAnswers(c17ctx, j)
+	if len(want) != 2*len(c04PairLimits) {
+		return true, "skip-no-fresh-answers", ""
+	}
+	binStr := func(s string) bool {
+		return !strings.HasPrefix(s, "application/octet-stream()") && !strings.Contains(s, "text/plain")
+	}
+	for _, l := range []uint32{4, 8, 16, 32} {
+		detect(W[j].Data, l)
+	}
+	for k, l := range c04PairLimits {
+		if l == 8 {
+			continue
+		}
+		got := detect(W[j].Data, l)
+		if binStr(want[2*k]) && !isBinaryID(got) {
+			return false, "C17/binary-id-lost-after-short-examination/" + strings.SplitN(want[2*k], "(", 2)[0],
+				fmt.Sprintf("witness %q: a fresh process identifies it at limit %d as %s; after the same file was examined at limits 4, 8, 16 and 32, limit %d gives %s", W[j].Name, l, want[2*k], l, chainStr(got))
+		}
+	}
+	return true, "", ""
+}
+
+func c17Setup(c *core.Ctx) {
+	c17ctx = c
+	c.Register("c17", c17Eval)
+	c.Register("c17hist", c17HistEval)
+	c.Register("c17fresh", c17FreshEval)
+}
 
 func c17Run(c *core.Ctx) {
 	cs := &core.Case{Kind: "c17", Ints: []int{0}}
+	hist := &core.Case{Kind: "c17hist", Ints: []int{0}}
 	maxFull := 4800
 	// walk all edges of one file
 	walk := func(f []byte, class string) {
@@ -48,6 +104,24 @@ func c17Run(c *core.Ctx) {
 		prevL := 1
 		if n == 0 {
 			return
+		}
+		// a descending pre-pass over a few limits (the whole file first): what is
+		// identified here must stay identified at every larger limit of the
+		// ascending sweep below, whatever was examined in between (the verdict is
+		// a function of the input and the limit, not of the order of the calls)
+		type dv struct {
+			L int
+			m string
+		}
+		var desc []dv
+		for _, L := range []int{0, n + 1, n, 3072, 1024, 256, 64, 32, 16, 8, 4} {
+			if L > n+1 {
+				continue
+			}
+			if m := detect(f, uint32(L)); isBinaryID(m) {
+				desc = append(desc, dv{L, chainStr(m)})
+			}
+			c.R.Evals++
 		}
 		prevB := isBinaryID(detect(f, 1))
 		c.R.Evals++
@@ -65,6 +139,17 @@ func c17Run(c *core.Ctx) {
 			prevB, prevL = b, L
 			if b {
 				anyB = true
+			}
+			if !b {
+				for _, d := range desc {
+					if d.L != 0 && (L == 0 || L > d.L) {
+						cs.In, cs.Limit, cs.Ints[0] = f, uint32(d.L), L
+						c.Check(cs) // re-evaluated from scratch; reported only if it fails there too
+						hist.In, hist.Limit, hist.Ints[0] = f, uint32(d.L), L
+						c.Check(hist)
+						break
+					}
+				}
 			}
 		}
 		for L := 2; L <= n+1; L++ {
@@ -86,6 +171,20 @@ func c17Run(c *core.Ctx) {
 		}
 	}
 	W := corpus(c)
+	// (0) against fresh-process verdicts, before this worker has looked at anything
+	{
+		fc := &core.Case{Kind: "c17fresh", Ints: []int{0}}
+		for j := range W {
+			if len(W[j].Data) > 1<<16 || !c.Next() || c.Expired() {
+				continue
+			}
+			fc.Ints[0] = j
+			c.R.Evals++
+			c.R.Transitions += 6
+			c.Check(fc)
+		}
+		c.SampleCase("fresh-process-reference", fc)
+	}
 	tails := [][]byte{nil, []byte("\nThe quick brown fox jumps over the lazy dog, again and again...\n"), make([]byte, 64), bytesOf(0xFF, 64),
 		make([]byte, 4300), bytes.Repeat([]byte("lorem ipsum dolor sit amet\n"), 160), bytesOf(0xFF, 4300)}
 	// (1) witnesses x tails
